@@ -53,10 +53,14 @@ impl Scheduler {
                     });
                 }
                 Signal::Terminal => {
+                    #[cfg(feature = "verif")]
+                    crate::verif::inflight_dec("queue");
                     *self.closed.lock().unwrap() = true;
                     return false;
                 }
             }
+            #[cfg(feature = "verif")]
+            crate::verif::inflight_dec("queue");
         }
 
         true
